@@ -1,7 +1,7 @@
 T = "GeomV.C13."
 CFG = {
     "id": "C13",
-    "lean_modules": ["GeomV.C13.Proofs", "GeomV.C13.Ties", "GeomV.C13.ProofsMeet", "GeomV.C13.ProofsRing", "GeomV.C13.ProofsTie", "GeomV.C13.ProofsBudget"],
+    "lean_modules": ["GeomV.C13.Proofs", "GeomV.C13.Ties", "GeomV.C13.ProofsMeet", "GeomV.C13.ProofsRing", "GeomV.C13.ProofsTie", "GeomV.C13.ProofsBudget", "GeomV.C13.ProofsSqrt"],
     "exe": "geomv_c13",
     "go_cmd": "c13",
     "stages": ["go:gen", "go:impl", "lean:judge"],
@@ -17,7 +17,7 @@ CFG = {
         "C13_simple_collinear_ordered", "C13_genPos_imp_colOrdered",
         "C13_ring_open_chain_simple", "C13_polygon_open_chains_simple", "C13_neartie_band_sound",
         "C13_budget_from_rounding", "C13_float_test_exact_outside_band", "C13_rne_std_model", "C13_float_test_exact_rne",
-        "C13_tie_rneM", "C13_sqrtHyp_iff",
+        "C13_tie_rneM", "C13_sqrtHyp_iff", "C13_sqrtHyp_of_faithful", "C13_float_test_exact_ieee",
     ]],
     "trusted_base": [
         "Lean 4.33.0 kernel; axioms of every theorem printed by #print axioms must be within {propext, Classical.choice, Quot.sound}",
@@ -27,7 +27,10 @@ CFG = {
         "distance test the model makes is re-evaluated with a bit-exact float replica of distPointToSegment; cases where float and exact "
         "disagree (or |d^2-tol^2| <= 1e-9 tol^2) are classed `-neartie` and not compared; outside the band |df-tol| <= 1e-6 tol the float "
         "decision equals the model's when the rounding error of the squared distance is within (eps/2)(d^2+tol^2) (C13_neartie_band_sound); "
-        "that budget is measured for every replayed distance test of curves up to 64 vertices (a test outside it makes the case a near-tie)",
+        "that budget is measured for every replayed distance test of curves up to 64 vertices (a test outside it makes the case a near-tie); "
+        "on the integer grid with tol >= 1/4 it is PROVED from the IEEE rounding (C13_float_test_exact_rne / _ieee, C02.rne = bit-level roundTiesToEven of C17): "
+        "what stays trusted there is that Go's + - * / round to nearest even operation by operation (no fused multiply-add; amd64) and that "
+        "math.Sqrt is faithfully rounded (C13_sqrtHyp_of_faithful: then df^2 is within (1 +- 2^-52)^2 of its argument) - that consequence is checked against the hardware float for every replayed test of curves up to 20 vertices",
         "T1: harness/cmd/c13/extract.go (go/ast + go/constant, ~550 lines) regenerates lean/GeomV/C13/Gen.lean (pointSubtract, dot, norm, d, "
         "distPointToSegment, lengthToOrigin, findIntersection2, findIntersection[first result]) from the tree under test on every run; "
         "Ties.lean proves each equal to the model function (lengths through their squares); the symbolic treatment of math.Sqrt "
@@ -44,7 +47,7 @@ CFG = {
     "rule": "fixed corpus (lengths 0,1,2,3 for every type and tolerance, TestSimplify's curves, closing-segment witness, collinear/duplicate/"
             "negative-tolerance cases) + generated integer-grid random walks, self-avoiding lattice walks, simple lines in general position "
             "(rejection-sampled with exact integer predicates), spirals, combs, star-shaped rings with holes, multi-geometries with empty and "
-            "short members; smooth long runs (arcs, parabolas, flat waves: one output segment replaces 65-500 vertices), size thresholds (63..130, 1023..2049 vertices; 64/65/128/129 members), the same shapes at scales 2^-30..2^30; every input laid out in one flat buffer with spare capacity, first answer re-read after a second call on the operand changed in place; shallow pockets on a ladder of small absolute scales (2^-8..2^-40, 1e-3..1e-7, with/without a lon/lat offset); densified simple lines (collinear runs in order); grid shapes at 2^±520..2^±1000 and subnormal scale (class far: rescale branch of distPointToSegment, judged with the real tolerance); pocket with a 33-125 vertex detour between bump and re-entry (class detour, general position judged up to 140 vertices); concurrent callers (class conc: 8 identical + 8 unrelated goroutines, multi-geometries with 32..80 members); lengths 0..3000; tol from {0,1/4,1/2,1.5,3.5,1e6} and a few others. distinct = distinct input line; non-trivial = "
+            "short members; smooth long runs (arcs, parabolas, flat waves: one output segment replaces 65-500 vertices), size thresholds (63..130, 1023..2049 vertices; 64/65/128/129 members), the same shapes at scales 2^-30..2^30; every input laid out in one flat buffer with spare capacity, first answer re-read after a second call on the operand changed in place; shallow pockets on a ladder of small absolute scales (2^-8..2^-40, 1e-3..1e-7, with/without a lon/lat offset); densified simple lines (collinear runs in order); grid shapes at 2^±520..2^±1000 and subnormal scale (class far: rescale branch of distPointToSegment, judged with the real tolerance); pocket with a 33-125 vertex detour between bump and re-entry (class detour, general position judged up to 140 vertices); concurrent callers (class conc: 8 identical + 8 unrelated goroutines, multi-geometries with 32..80 members); graded near-ties tol(1 +- 2^-k), k = 12..30, in the three branches of distPointToSegment under 8 symmetries and 3 dyadic scales (class ladder); rings/polygons/lines of every input are windows of one table with spare capacity and sentinel entries (headers compared before/after); lengths 0..3000; tol from {0,1/4,1/2,1.5,3.5,1e6} and a few others. distinct = distinct input line; non-trivial = "
             "class is not skipped/neartie",
     "trivial_class": r"^(skipped.*|.*-neartie|.*-outofrange)$",
     "timeout": {"quick": 900, "thorough": 3000},
